@@ -77,6 +77,7 @@ type sWorld struct {
 	ctx     context.Context
 	docKey  key.Key
 	clients []*sClient
+	extra   []*sClient // shadows of clients on a second document
 	val     int
 }
 
@@ -167,6 +168,9 @@ func (sw *sWorld) newDoc(c *sClient) {
 
 func (sw *sWorld) close() {
 	for _, c := range sw.clients {
+		close(c.stop)
+	}
+	for _, c := range sw.extra {
 		close(c.stop)
 	}
 }
@@ -270,6 +274,91 @@ func (sw *sWorld) compact(force bool) error {
 	}
 	_, err = documents.CompactDocument(sw.ctx, sw.w.BE, sw.proj, di, force)
 	return err
+}
+
+// second gives client c a second document (another key) of its own: a shadow
+// sClient with the same client id, attached and synced.
+func (sw *sWorld) second(c *sClient) (*sClient, error) {
+	b := &sClient{id: c.id, role: c.role}
+	d := document.New(key.Key(string(sw.docKey) + "-b"))
+	a, _ := yktime.ActorIDFromHex(c.id)
+	d.SetActor(a)
+	stop := make(chan struct{})
+	go func() {
+		for {
+			select {
+			case <-d.Events():
+			case <-stop:
+				return
+			}
+		}
+	}()
+	b.doc, b.stop = d, stop
+	sw.extra = append(sw.extra, b)
+	_ = d.Update(func(r *yjson.Object, p *document.Presence) error {
+		r.SetNewCounter("c", 0)
+		return nil
+	})
+	if err := sw.attach(b); err != nil {
+		return nil, err
+	}
+	sw.w.WaitBackground()
+	b.delivered, b.cps = nil, nil
+	return b, nil
+}
+
+func (sw *sWorld) editOther(b *sClient) {
+	_ = b.doc.Update(func(r *yjson.Object, p *document.Presence) error {
+		r.GetCounter("c").Increase(1)
+		return nil
+	})
+}
+
+func (sw *sWorld) pushpullOther(b *sClient) error { return sw.pushpull(b) }
+
+// storedCheckpoints: for every document of client c (the main one and the
+// shadows made by second), the checkpoint the server has stored equals the
+// last one it returned - a request on one document must not undo the
+// bookkeeping of another.
+func (sw *sWorld) storedCheckpoints(c *sClient) string {
+	a, _ := yktime.ActorIDFromHex(c.id)
+	ci, err := sw.w.BE.DB.FindClientInfoByRefKey(sw.ctx, types.ClientRefKey{ProjectID: sw.proj.ID, ClientID: types.IDFromActorID(a)})
+	if err != nil {
+		return "client info: " + err.Error()
+	}
+	for _, x := range append([]*sClient{c}, sw.extra...) {
+		if x.id != c.id || len(x.cps) == 0 {
+			continue
+		}
+		cd := ci.Documents[types.ID(x.docID)]
+		if cd == nil {
+			return fmt.Sprintf("client %d has no stored entry for document %s", c.role, x.doc.Key())
+		}
+		want := x.doc.Checkpoint()
+		if cd.ServerSeq != want.ServerSeq || cd.ClientSeq != want.ClientSeq {
+			return fmt.Sprintf("client %d, document %s: stored checkpoint (%d,%d) != acknowledged checkpoint (%d,%d)", c.role, x.doc.Key(), cd.ServerSeq, cd.ClientSeq, want.ServerSeq, want.ClientSeq)
+		}
+	}
+	return ""
+}
+
+// goneFromDocument: the client no longer counts for the document - status not
+// attached and no version-vector row.
+func (sw *sWorld) goneFromDocument(c *sClient) string {
+	a, _ := yktime.ActorIDFromHex(c.id)
+	ci, err := sw.w.BE.DB.FindClientInfoByRefKey(sw.ctx, types.ClientRefKey{ProjectID: sw.proj.ID, ClientID: types.IDFromActorID(a)})
+	if err != nil {
+		return "client info: " + err.Error()
+	}
+	if cd := ci.Documents[types.ID(c.docID)]; cd != nil && cd.Status == database.DocumentAttached {
+		return fmt.Sprintf("client %d is still attached after detach and deactivate both returned", c.role)
+	}
+	for _, raw := range sw.w.MemDB.DumpTableForVerif("versionvectors") {
+		if v := raw.(*database.VersionVectorInfo); v.DocID == types.ID(c.docID) && v.ClientID == types.IDFromActorID(a) {
+			return fmt.Sprintf("client %d left a version-vector row behind", c.role)
+		}
+	}
+	return ""
 }
 
 // setup: client 0 creates the content, everybody attaches and syncs (unmanaged).
